@@ -48,7 +48,7 @@ def streams(b, builders):
     pre = []
     if li is not None and b.name != "load_imm" and any(n == "load_imm" for n, _a, _c in b.helper_calls):
         pre = max((i for _m, _h, i in li.blocks), key=len, default=[])
-    return [(desc, list(pre) + ins) for desc, ins in vs]
+    return [(desc, list(pre) + ins, len(pre)) for desc, ins in vs]
 
 
 def op_builders(builders):
@@ -189,7 +189,7 @@ def check_hazards(rule, kind, root=None):
         if vs is None:
             rule.skip("aarch64 %s %s" % (kind, name), "too many conditional dynasm blocks")
             continue
-        if not any(ins for _d, ins in vs):
+        if not any(ins for _d, ins, _p in vs):
             continue
         outp = AC.out_param(b)
         inputs = [n for (n, ty) in b.params if ty == "u8" and n != outp]
@@ -200,7 +200,7 @@ def check_hazards(rule, kind, root=None):
         # a local `let rhs = self.load_imm(..)` operand is the immediate register itself (already resolved)
         found = set()
         npaths = 0
-        for desc, ins in vs:
+        for desc, ins, prelen in vs:
             succ, cprobs = X.build_cfg(ins)
             if cprobs:
                 continue  # reported by the branch rule
@@ -250,7 +250,7 @@ def check_hazards(rule, kind, root=None):
                                 pass  # rmw keeps definedness
                             else:
                                 defined.update((0, 1, 2, 3))  # scalar and 64-bit writes zero the rest
-                        if o.name == ir:
+                        if o.name == ir and i >= prelen:
                             imm_clobbered = True
                 if outp and name in op_builders(builders) and not b.helper_calls or (outp and name.startswith("call_fn")):
                     miss = sorted(need - defined)
@@ -507,6 +507,7 @@ class Emu:
         self.mem = {}
         self.calls = []
         self.notes = []
+        self.writer = {}
 
     def phys(self, o):
         n = o.name
@@ -542,6 +543,8 @@ class Emu:
 
     def step(self, x):
         e = X.effect(x)
+        for o_ in e.writes:
+            self.writer[o_.name if o_.kind == "gpr" else "v" + str(self.phys(o_))] = x
         m = x.mnem
         ops = x.ops
         ln = x.ln
@@ -792,6 +795,9 @@ def check_frame(rule, kind, root=None):
     ens = builders.get("ensure_callee_regs_saved")
     push_vs = X.block_variants(data["push_stack"]) or []
     dfin_vs = X.block_variants(data["finalize"]) or []
+    for _d, ins_ in push_vs + dfin_vs:
+        for x_ in ins_:
+            x_.path = "fidget-jit/src/lib.rs"
     fin_vs = X.block_variants(fin) or []
     if not push_vs or not dfin_vs or not fin_vs:
         rule.lost("aarch64 %s: frame instruction streams" % kind)
@@ -853,7 +859,9 @@ def check_frame(rule, kind, root=None):
                     findings.setdefault("sp|%s" % label[:12], "sp is not restored (%s)" % ctx)
                 for r in CALLEE_SAVED_GPR:
                     if em.g[r] != ("orig", r):
-                        findings.setdefault("gpr|%s" % r, "%s is callee-saved under the AAPCS64 but holds %s at `ret` (%s): the Rust caller's value is lost" % (r, _show(em.g[r]), ctx))
+                        w = em.writer.get(r)
+                        by = (" - last written by `%r` (%s:%d) and never restored" % (w, getattr(w, "path", p), w.ln)) if w is not None else ""
+                        findings.setdefault("gpr|%s" % r, "%s is callee-saved under the AAPCS64 but does not hold its entry value at `ret`%s (%s): the Rust caller's value is lost" % (r, by, ctx))
                 for i in range(8, 16):
                     for l in (0, 1):
                         if em.v[str(i)][l] != ("orig", "v%d" % i, l):
@@ -958,9 +966,10 @@ def _a64_constants(ins):
             if any(q.kind == "gpr" and q.name == ops[0].name for q in e.reads):
                 out.add("0x%x" % pend[ops[0].name])
             pend.pop(ops[0].name, None)
-        for o in ops:
-            if o.kind == "imm" and re.fullmatch(r"0x[0-9a-fA-F_]{5,}", o.text):
-                out.add("0x%x" % int(o.text.replace("_", ""), 0))
+        if x.mnem in ("orr", "and", "eor", "mov", "movz"):
+            for o in ops:
+                if o.kind == "imm" and re.fullmatch(r"0x[0-9a-fA-F_]{5,}", o.text):
+                    out.add("0x%x" % int(o.text.replace("_", ""), 0))
     for v in pend.values():
         out.add("0x%x" % v)
     return {c for c in out if c.startswith("0x") and int(c, 0) >= 0x10000 or "to_bits" in c}
@@ -973,7 +982,11 @@ def check_constants(rule, root=None):
     ref = {}
     for kind in AC.ALL:
         for name, b in M.load_builders(AC.path_of(kind), root).items():
-            s = {("0x%x" % int(re.sub(r"(_?[iu](8|32|64))$", "", c).replace("_", ""), 0)) for c in AC.magic_constants(b) if re.fullmatch(r"0x[0-9a-fA-F_]+(_?[iu](8|32|64))?", c)}
+            s = set()
+            for c in AC.magic_constants(b):
+                c2 = re.sub(r"(_?[iu](8|32|64))$", "", c)
+                if re.fullmatch(r"-?(0x[0-9a-fA-F_]+|\d+)", c2):
+                    s.add("0x%x" % (int(c2.replace("_", ""), 0) & 0xFFFFFFFF))
             if s:
                 ref.setdefault(name, set()).update(s)
     for kind in X.KINDS:
